@@ -99,9 +99,16 @@ class ExprMixin:
             r = z3.Const(fresh_name("keys"), keys.sort())
             n = z3.Length(d.keys)
             j = z3.Int(fresh_name("j"))
-            st.assume(r == keys)
+            # (the defining equation r == If(has, keys, keys ++ [k]) is deliberately NOT asserted: every consequence the
+            # proofs use is stated below, and without the equation the sequence solver has nothing to unfold)
             st.assume(z3.Implies(has, r == d.keys))
             st.assume(z3.Implies(z3.Not(has), z3.And(z3.Length(r) == n + 1, r[n] == ke, z3.ForAll([j], z3.Implies(z3.And(0 <= j, j < n), r[j] == d.keys[j])))))
+            # membership facts the sequence solver is slow to derive: the stored key is a key, every old key still is
+            x = z3.Const(fresh_name("x"), ke.sort())
+            st.assume(z3.Contains(r, z3.Unit(ke)))
+            st.assume(z3.ForAll([x], z3.Implies(z3.Contains(d.keys, z3.Unit(x)), z3.Contains(r, z3.Unit(x)))))
+            st.assume(z3.ForAll([x], z3.Implies(z3.Contains(r, z3.Unit(x)), z3.Or(x == ke, z3.Contains(d.keys, z3.Unit(x))))))
+            st.assume(has == z3.Contains(d.keys, z3.Unit(ke)) if not isinstance(d.vty, TRef) else z3.BoolVal(True))
             keys = r
         return VDict(d.kty, d.vty, keys, dict_store(d, ke, v), d.default)
 
